@@ -102,6 +102,8 @@ func call(f func()) (panicked string) {
 // otherEvent is a valid binary event ({"other":"event","n":1234567}) decoded between two looks at an earlier result.
 var otherEvent = []byte{0xbf, 0x65, 'o', 't', 'h', 'e', 'r', 0x65, 'e', 'v', 'e', 'n', 't', 0x61, 'n', 0x1a, 0x00, 0x12, 0xd6, 0x87, 0xff}
 
+const otherEventText = "{\"other\":\"event\",\"n\":1234567}\n"
+
 var console = zerolog.ConsoleWriter{Out: io.Discard, NoColor: true}
 
 // journal decodes the binary event and hands it to the journal socket, which does not exist in
@@ -153,6 +155,18 @@ func checkInput(in []byte, withConsole bool) *failure {
 	call(func() { zerolog.VerifDecodeIfBinaryToBytes(otherEvent) })
 	if !bytes.Equal(snap, b2) {
 		return &failure{"DecodeIfBinaryToBytes", hex.EncodeToString(in), fmt.Sprintf("the returned bytes changed when another event was decoded afterwards: first %.80q, now %.80q", snap, b2)}
+	}
+	// ... and whatever this input did to the decoder (an error in mid-event included), a valid
+	// event decoded afterwards comes out as exactly itself, through both entry points
+	var after bytes.Buffer
+	call(func() { zerolog.VerifCbor2JsonManyObjects(bytes.NewReader(otherEvent), &after) })
+	if after.String() != otherEventText {
+		return &failure{"Cbor2JsonManyObjects", hex.EncodeToString(in), fmt.Sprintf("a valid event decoded after this input comes out as %.120q, want %q", after.String(), otherEventText)}
+	}
+	var afterB []byte
+	call(func() { afterB = zerolog.VerifDecodeIfBinaryToBytes(otherEvent) })
+	if string(afterB) != otherEventText {
+		return &failure{"DecodeIfBinaryToBytes", hex.EncodeToString(in), fmt.Sprintf("a valid event decoded after this input comes out as %.120q, want %q", afterB, otherEventText)}
 	}
 	if len(b2) > 1024+64*len(in) {
 		return &failure{"DecodeIfBinaryToBytes", hex.EncodeToString(in), fmt.Sprintf("%d output bytes for %d input bytes", len(b2), len(in))}
